@@ -2,6 +2,8 @@
 
 from __future__ import annotations
 
+import re
+
 from collections.abc import Mapping, Sequence
 from io import StringIO
 
@@ -26,6 +28,7 @@ OUTSIDE = [
 ]
 
 SECRET = "S3CR3T"
+NUM_SECRET = 73317
 LOG: list = []
 PROTOCOL = {
     "__class__", "__getitem__", "__len__", "__iter__", "__contains__", "__str__", "__int__", "__float__", "__index__", "__liquid__",
@@ -55,6 +58,11 @@ class _Logged:
 class Plain(_Logged):
     secret = SECRET
     token = SECRET
+
+    def __init__(self) -> None:
+        # values held only in the instance __dict__ (a string and a number: `sum` ignores non-numbers)
+        object.__setattr__(self, "held", SECRET)
+        object.__setattr__(self, "balance", NUM_SECRET)
 
     def leak(self):  # type: ignore[no-untyped-def]
         return SECRET
@@ -153,7 +161,10 @@ PROGRAMS = [
     "{{ o[k] | default: o }}|{{ o | default: k | append: o }}|{% assign z = o %}{{ z[k][k] }}|{% capture c %}{{ o }}{% endcapture %}{{ c[k] }}|{{ \"${o[k]}${k}\" }}|{% echo o[k] %}|{% cycle o[k], k %}",
 ]
 TEMPLATES = [ENV.from_string(s) for s in PROGRAMS]
-for _t in TEMPLATES:
+# Every `|`-separated probe of a program is also rendered on its own: in the concatenated program an earlier probe that
+# raises (e.g. `sort: k` on objects without item access) would hide what a later probe (`sum: k`) does.
+SEGMENTS = [[ENV.from_string(seg) for seg in re.split(r"(?<=[}])[|](?=[{])", s)] for s in PROGRAMS]
+for _t in TEMPLATES + [x for segs in SEGMENTS for x in segs]:
     try:
         _t.render(o={"a": 1}, l=[{"a": 1}], k="a")
     except Exception:  # noqa: BLE001
@@ -172,7 +183,7 @@ def _render(t, data: dict, is_async: bool) -> str:
     timeout=300,
     shard={"p": list(range(len(PROGRAMS)))},
     covers="for every attribute name of the context objects used as path segment, filter argument, lambda body key, loop/tablerow drop key or include name: the secret held in a Python attribute never appears in the output (nor in an error message), and the only attributes read by name are protocol hooks",
-    bounds="14 programs (engine-injected keyword names context/environment supplied by the template, paths, first/last/size, map/where/reject/sort*/sum/uniq/compact/find/has, lambdas, for/tablerow, render/include/with/assign/capture, misc filters, conditions, include by name, translate/date) x 4 object shapes x ~90 names (dir(obj) incl. dunders + documented keys), sync and async",
+    bounds="14 programs, whole and split into their |-separated probes (engine-injected keyword names context/environment supplied by the template, paths, first/last/size, map/where/reject/sort*/sum/uniq/compact/find/has, lambdas, for/tablerow, render/include/with/assign/capture, misc filters, conditions, include by name, translate/date) x 4 object shapes x ~90 names (dir(obj) incl. dunders + documented keys), sync and async",
     stubs=("context objects log attribute reads through __getattribute__",),
     grid=lambda: [(p, NAMES.index(n), s, a) for p in range(len(PROGRAMS)) for n in ("secret", "leak", "prop", "__class__", "__dict__", "title", "first", "__init__") for s in range(4) for a in (False, True)],
 )
@@ -182,13 +193,16 @@ def d_no_attr(p: int, ni: int, shape: int, is_async: bool) -> bool:
     is_async = bool(is_async)
 
     def run() -> bool:  # name, object shape and mode are concrete: the render runs outside the tracer
-        o = cls()
-        items = [cls(), cls()]
-        LOG.clear()
-        out = _render(TEMPLATES[p], {"o": o, "l": items, "k": k, "probe": SECRET}, is_async)
-        if SECRET in out:
-            return False
-        return all(_allowed(name, shape_name) for shape_name, name in LOG)
+        for t in [TEMPLATES[p]] + (SEGMENTS[p] if len(SEGMENTS[p]) > 1 else []):
+            o = cls()
+            items = [cls(), cls()]
+            LOG.clear()
+            out = _render(t, {"o": o, "l": items, "k": k, "probe": SECRET}, is_async)
+            if SECRET in out or str(NUM_SECRET) in out or str(2 * NUM_SECRET) in out:
+                return False
+            if not all(_allowed(name, shape_name) for shape_name, name in LOG):
+                return False
+        return True
 
     return untraced(run)
 
